@@ -14,7 +14,7 @@ RULE = ("Sequential: all ordered trees with <= N nodes over node kinds {extract(
         "parent (the root from outside any extraction); before/after every child the hook records what is visible through the "
         "public API: (contexts present on a probe frame, extract_child(for_task=True) populated) or 'outside' when extract_child "
         "refuses. Reference model: a stack of option pairs (state = stack contents, transition = one node entry/exit). "
-        "Concurrent: 2-3 threads each running a script, all schedules with <= B preemptions, scheduling points at every line of "
+        "Concurrent: 2-3 threads (thorough: also 4 threads with <= 1 preemption) each running a script, all schedules with <= B preemptions, scheduling points at every line of "
         "ExtractOptions.push and at every observation; each thread's observation log must equal its sequential reference.")
 ASSUMPTIONS = ["observations go only through the public API (extract_child results, Frame.contexts)",
                "interleavings at source-line granularity of ExtractOptions.push plus hook boundaries"]
@@ -319,7 +319,10 @@ CONC = [
     [[["E", False, False, True, [["C", False, False, []]]]], [["E", True, True, False, [["E", False, False, False, []]]]]],
     [[["F"]], [["E", False, True, False, [["F"]]]]],
     [[["E", True, True, False, []]], [["E", False, False, False, []]], [["E", True, False, False, []]]],
+    # four threads (explored with at most one preemption, thorough tier only)
+    [[["E", True, True, False, [["F"]]]], [["E", False, False, False, [["C", True, False, []]]]], [["E", True, False, True, []]], [["F"], ["C", False, False, []]]],
 ]
+FOUR_THREAD_SCENARIOS = (6,)
 
 
 def option_codes(X):
@@ -349,6 +352,11 @@ def run_conc(ctx):
     for si, scripts in enumerate(CONC):
         if not ctx.mine(si):
             continue
+        sbound = bound
+        if si in FOUR_THREAD_SCENARIOS:
+            if ctx.tier == "quick":
+                continue
+            sbound = 1
         refs = [reference(s)[0] for s in scripts]
         results = {}
 
@@ -381,14 +389,14 @@ def run_conc(ctx):
 
         def outcome(s, ex):
             return tuple(tuple(map(repr, results[i]["log"])) if i in results else None for i in range(len(scripts)))
-        res = schedx.explore(make, check, bound, on_exec=outcome)
+        res = schedx.explore(make, check, sbound, on_exec=outcome)
         ctx.count("schedules", res["executions"])
         ctx.count("evaluations", res["executions"])
         ctx.count("traces_validated_against_impl", res["executions"])
         ctx.count("transitions", res["points"])
         ctx.count("states", res["points"])
         ctx.count("distinct_nontrivial", res["executions"])
-        ctx.sample({"leg": "conc", "scenario": si, "scripts": scripts, "schedules": res["executions"], "points": res["points"], "bound": bound})
+        ctx.sample({"leg": "conc", "scenario": si, "scripts": scripts, "schedules": res["executions"], "points": res["points"], "bound": sbound})
         for choices, problems in res["violations"]:
             ctx.violation({"leg": "conc", "scenario": si, "choices": choices}, "; ".join(problems)[:1500], "conc")
 
